@@ -2208,7 +2208,12 @@ pub fn random_desc(rng: &mut Rng, bud: &Budget) -> AirDesc {
         if m >= 1 {
             let any_e = rng.range(1, m as u64) as usize;
             desc.exemptions = *rng.pick(&[1usize, 2.min(m), m, any_e]);
-            desc.tail_junk = desc.exemptions > 1 && rng.chance(1, 2);
+            // a junk tail would break periodic assertions placed on rule-driven columns
+            let periodic_on_rule = desc
+                .assertions
+                .iter()
+                .any(|a| a.kind == AssertKind::Periodic && matches!(desc.cols[a.column], ColGen::Step { .. } | ColGen::Fn(_)));
+            desc.tail_junk = desc.exemptions > 1 && rng.chance(1, 2) && !periodic_on_rule;
         }
     }
     debug_assert!(desc.validate().is_ok(), "random_desc produced an invalid description: {:?} {}", desc.validate(), desc.to_line());
